@@ -544,6 +544,48 @@ fn hand_step(rng: &mut Rng, baseline: &[TableDef], version: u32) -> Option<Migra
     if acts.is_empty() { None } else { Some(mkplan(version, acts)) }
 }
 
+/// Deterministic histories about the primary key of tables whose names (and columns) carry upper-case letters:
+/// PostgreSQL keeps the spelling of a quoted table name in the implicit "<table>_pkey".  Every run emits, for
+/// User / orderItem / UserAccount: the planner's key replacement (the key's column set changes: RemoveConstraint
+/// PrimaryKey + AddConstraint PrimaryKey), a second replacement, and a hand-written removal with the key added back.
+fn mixed_case_key_histories(rows: &mut Vec<Value>, hist: &mut usize) {
+    let int = || ColumnType::Simple(SimpleColumnType::Integer);
+    for name in ["User", "orderItem", "UserAccount"] {
+        let table = |pk: &[&str]| TableDef {
+            name: name.to_string(),
+            description: None,
+            columns: vec![col("id", int(), false), col("tenantId", int(), false), col("displayName", ColumnType::Simple(SimpleColumnType::Text), true)],
+            constraints: vec![TableConstraint::PrimaryKey { auto_increment: false, columns: pk.iter().map(|c| c.to_string()).collect() }],
+        };
+        let mut h: Vec<MigrationPlan> = vec![];
+        let mut k = 0usize;
+        for pk in [&["id"][..], &["id", "tenantId"][..], &["tenantId"][..]] {
+            let m = vec![table(pk)];
+            let Ok(p) = plan_next_migration(&m, &h) else { continue };
+            if p.actions.is_empty() {
+                continue;
+            }
+            let baseline = schema_from_plans(&h).unwrap_or_default();
+            let Some(f) = revision_fill(&p, &baseline) else { continue };
+            let f = MigrationPlan { version: p.version, ..f };
+            emit_mig(rows, &h, &f, "mixedcase:plan", *hist, k);
+            k += 1;
+            h.push(f);
+        }
+        let baseline = schema_from_plans(&h).unwrap_or_default();
+        if let Some(pkc) = baseline.iter().find(|t| t.name == name).and_then(|t| t.constraints.iter().find(|c| matches!(c, TableConstraint::PrimaryKey { .. })).cloned()) {
+            let p = mkplan(h.len() as u32 + 1, vec![
+                MigrationAction::RemoveConstraint { table: name.to_string(), constraint: pkc.clone() },
+                MigrationAction::AddConstraint { table: name.to_string(), constraint: pkc },
+            ]);
+            if validate_migration_plan(&p).is_ok() {
+                emit_mig(rows, &h, &p, "mixedcase:hand", *hist, k);
+            }
+        }
+        *hist += 1;
+    }
+}
+
 struct Stats {
     rejected_edits: usize,
     refused_fill: usize,
@@ -677,6 +719,7 @@ fn main() {
             }
         }
     }
+    mixed_case_key_histories(&mut rows, &mut hist);
     for i in 0..n {
         let stream = match i % 5 {
             0 | 1 => "grown",
